@@ -22,7 +22,7 @@ type KCase struct {
 func genKCase(t *rapid.T) KCase {
 	return KCase{
 		CDNA3: rapid.IntRange(0, 2).Draw(t, "cdna3") == 0,
-		Prog:  kgen.GenProgram(t, kgen.GenOpts{MaxItems: 400, MaxOps: 20, LDS: true, Partial: true}),
+		Prog:  kgen.GenProgram(t, kgen.GenOpts{MaxItems: 400, MaxOps: 20, LDS: true, Partial: true, SubDword: true}),
 	}
 }
 
